@@ -36,6 +36,11 @@ CLAIMED = {
    technique="symbolic execution of Numba typed IR + z3 (QF_BV + LIA glue): ghost-free Boyer-Moore potential lemmas per kernel step, linear-arithmetic glue to the invariant Phi >= 2f - W, plus bounded histories with symbolic key bytes",
    text="For a tracked identity y and its cell in every row: one _add(y,v) raises the potential by exactly v, one _add(z!=y,v) lowers it by at most v (only if z shares the cell), _merge is super-additive, and _max_count(y) >= any positive potential -- each proved on the real kernels from an arbitrary sketch absent 32-bit saturation; a linear-arithmetic query shows these imply hh[y] >= max_r(2f - W_r). Bounded histories (symbolic key bytes, 2 sketches, K <= 4) find real counterexamples incl. merge-order dependent ones.",
    note="Saturated cells excluded as the property states; bounded shapes/key lengths; 'query() contains the key / majority key first' additionally rests on C13's query lemmas and is judged directly in every replay."),
+
+ "C09": dict(engine=K, category="model_checking", design="6 C09",
+   technique="symbolic execution of Numba typed IR + z3: QF_BV cell-wise spec for linear; for log merges QF_FPBV facts plus a real-idealised (NRA + uninterpreted pow/log with instantiated algebraic laws) nearest-counter lemma, counterexamples confirmed by a real sweep of all counters",
+   text="Linear: every cell == min(a+b, 2^32-1) for all counter pairs, argument untouched, bookkeeping summed, commutative, empty is identity, never below an input, merged estimate >= capped sum of estimates. Log16/log8: exact IEEE facts (argument untouched, bookkeeping, a+b exactly inside the reserved range) and, with floats idealised as reals and symbolic num_reserved/max_count/base, that the re-encoded counter brackets the decoded sum, is the nearer neighbour with ties down, equals the ceiling from max_count on, is never below an input, that empty is the identity and merge is commutative, with every float->int cast and integer addition shown in range.",
+   note="The nearest-counter lemma is in exact real arithmetic under the configuration invariant value(ceiling) == max_count; float rounding at exact decision boundaries is outside the claim. An idealised counterexample is reported only after a concrete witness is found on the real kernels (sweep of a row holding all counters against an independent decode-table oracle)."),
 }
 NA = {}
 ALL = sorted(TITLES)
